@@ -68,6 +68,7 @@ func c01Feat(b []byte) string {
 var c01Types = []string{"blob", "tree", "commit", "tag"}
 
 func runC01(c *fw.Ctx) {
+	c01Concurrent(c)
 	sigma := []string{"\x00", "a", "\n", " ", "0"}
 	maxLen := c.Pick(3, 4)
 	sizes := []int{4095, 4096, 4097, 32767, 32768, 32769, 65535, 65536}
